@@ -13,8 +13,8 @@
 // Understood Go: integer literals, identifiers (parameters, locals, integer constants of the same
 // file), + and - (wrapping in the function's integer type), < <= > >= ==, && || !, min/max, the
 // casts int / int64 / uint64, `x := e`, `if c { ... }` without else, `return e`; for the reorg
-// helpers the three accesses header.Number.Int64(), <status>.BlockNumber and
-// bytes.Equal(header.ParentHash.Bytes(), <status>.BlockHash) become parameters; for GetSyncRanges a
+// helpers the accesses header.Number.Int64(), <status>.BlockNumber,
+// bytes.Equal(header.ParentHash.Bytes(), <status>.BlockHash) and len(<status>.BlockHash) become parameters; for GetSyncRanges a
 // single `for x := e; [c]; x += e` whose body (and, recursively, the body of every `if c { ...; break }`
 // in it) consists of `v := e`, `ranges = append(ranges, [2]uint64{a, b})`,
 // `ranges[len(ranges)-1][1] = e` and such ifs,
@@ -232,8 +232,9 @@ func sfReorgHelper(f *ast.File, goName, coqName string) (string, error) {
 		hd + ".Number.Int64()": "(gen_i64 header_number)",
 		st + ".BlockNumber":    "synced_number",
 		"bytes.Equal(" + hd + ".ParentHash.Bytes()," + st + ".BlockHash)": "parent_is_synced_hash",
+		"len(" + st + ".BlockHash)": "synced_hash_len",
 	}}
-	params := "(header_number synced_number : Z) (parent_is_synced_hash : bool)"
+	params := "(header_number synced_number : Z) (parent_is_synced_hash : bool) (synced_hash_len : Z)"
 	if len(ps) == 3 {
 		t.locals[ps[2]] = true
 		params += " (" + sfName(ps[2]) + " : Z)"
